@@ -11,7 +11,7 @@ NAIVE_LOCAL = "datetime::DateTime::<Tz>::naive_local"
 def run(chk, tier):
     P = Prog("default")
     chk.configs.add("default")
-    for r in (r_guards, r_digits, r_basis, r_subsecs, r_absint):
+    for r in (r_guards, r_digits, r_basis, r_subsecs, r_unchanged, r_absint):
         chk.guarded(r, P, tier)
     chk.assume("which multiple is returned, tie breaking and idempotence are numerical and NOT decided")
     return {
@@ -24,7 +24,7 @@ def run(chk, tier):
 
 
 def r_guards(chk, P, tier):
-    chk.rule("SIB.guards", "duration_round / _trunc / _round_up share the guard prefix and the error classification", floor=9)
+    chk.rule("SIB.guards", "duration_round / _trunc / _round_up share the guard prefix and the error classification", floor=12)
     for fn in FNS:
         errs = []
         oks = 0
@@ -52,6 +52,17 @@ def r_guards(chk, P, tier):
                     if is_call(x, suffix="Option::<T>::ok_or") and is_call(x[2][0], suffix="timestamp_nanos_opt") and x[2][1][0] == "agg" and x[2][1][3] == "TimestampExceedsLimit":
                         tl = True
         chk.expect(tl, fn + ": TimestampExceedsLimit", "%s does not map a missing nanosecond timestamp to TimestampExceedsLimit" % fn, loc=P.loc(fn))
+        # the span that is classified is the caller's span, unmodified (no clamping / normalising before the test)
+        recv = set()
+        for p in Sym(P, fn).paths():
+            for c in p.calls:
+                if isinstance(c[1], str) and c[1].endswith("TimeDelta::num_nanoseconds"):
+                    a = c[2][0]
+                    while a[0] in ("ref", "deref"):
+                        a = a[1]
+                    recv.add(a)
+        chk.expect(bool(recv) and all(a[0] == "arg" for a in recv), fn + ": span unmodified", "%s classifies %s, not the span argument itself, with num_nanoseconds()" % (
+            fn, sorted(pp(a)[:50] for a in recv if a[0] != "arg")), loc=P.loc(fn))
         chk.expect(rem_guarded and oks >= 3, fn + ": span > 0 before %", "%s has a success path that does not pass the `span <= 0` guard" % fn, loc=P.loc(fn))
 
 
@@ -97,3 +108,33 @@ def r_absint(chk, P, tier):
     res = e1.run_engine(P, tier)
     e1.report(chk, P, res, "ABSINT.round", "arithmetic in round.rs (and the operator calls it makes) is discharged or justified",
               fn_filter=lambda fn: fn.startswith("round::") or "round::" in fn, floor=12)
+
+
+def r_unchanged(chk, P, tier):
+    """"multiples are returned unchanged" and idempotence: the input comes back untouched exactly on the paths that found stamp % span == 0"""
+    chk.rule("COND.unchanged_iff_multiple", "duration_round / _trunc / _round_up return `original` itself on exactly the paths where (stamp % span) was tested equal to 0", floor=3)
+    for fn in FNS:
+        n = 0
+        for p in Sym(P, fn).paths():
+            if p.end[0] != "return" or result_variant(p.ret)[0] != "Ok":
+                continue
+            payload = p.ret[4][0]
+            zero_rem = False
+            for c in p.conds:
+                t = c[1]
+                if c[0][0] != "switch":
+                    continue
+                if t[0] == "bin" and t[1] == "Eq" and const_of(t[3]) == 0 and t[2][0] == "bin" and t[2][1] == "Rem" and c[2] != 0:
+                    zero_rem = True
+                if t[0] == "discr" and is_call(t[1]) and str(t[1][1]).endswith("Ord for i64>::cmp") and c[2] == 0:
+                    a, b = t[1][2]
+                    a, b = unref(a), unref(b)
+                    if a[0] == "bin" and a[1] == "Rem" and const_of(b) == 0:
+                        zero_rem = True
+            unchanged = payload[0] == "arg"
+            n += 1
+            if unchanged != zero_rem:
+                chk.bad(fn + ": path %d" % n, "%s returns %s on a path where stamp %% span %s found equal to 0" % (fn, "the input unchanged" if unchanged else "a modified value", "was NOT" if unchanged else "was"), loc=P.loc(fn))
+                break
+        else:
+            chk.ok(fn + " (%d Ok paths)" % n)
